@@ -3,8 +3,9 @@
 Implementation side: impl/drv/virtdrv.cpp (VirtualArray with scripted ArrayGenerator/ArrayCache subclasses;
 IrregularlyPartitionedArray).  Model side: c18/coq (Virtual.v, Partition.v) extracted to .build/c18/virtrun.
 Checked per step of a session:
-  (i)   value of the operation on the virtual / partitioned array == value on the eager array (dumps equal, or
-        equal through the core's to_list: modelrun op `id`);
+  (i)   value of the operation on the virtual / partitioned array == value on the eager array: equal dumps, or equal
+        values after the driver has walked both results element by element (record fields by name, strings as units);
+        types of partition slices, JSON documents and lengths as well;
   (ii)  the implementation's trace of cache/generator calls is a run of the Virtual model: same hit/miss pattern,
         same invocation numbers, same ok/err, same invocation counts;
   (iii) partition operations on the positions array == the Partition model (with the repartition guard);
@@ -213,7 +214,8 @@ ARRAY_OPS = {'num', 'flatten', 'localindex', 'getitem', 'range', 'carry', 'lazyc
 
 
 def gen_virt(rng, i):
-    a = G.gen_array(rng, depth=rng.choice([1, 2, 2, 3]), canonical_too=False)
+    # (no int64 extremes: sum/prod overflow is undefined behaviour in the eager kernels, reported by UBSan: a C03 matter)
+    a = G.gen_array(rng, depth=rng.choice([1, 2, 2, 3]), canonical_too=False, special=False)
     lay, t, n = a['layout'], a['type'], len(a['vals'])
     cands = []
     heads = ('np', 'nps', 'empty', 'lo', 'la', 'reg', 'ix', 'ixo', 'bym', 'bim', 'unm', 'un', 'rec', 'par')
@@ -540,51 +542,6 @@ def canon(d):
     return d
 
 
-def is_layout(d):
-    return isinstance(d, list) and d and d[0] not in ('scalar', 'none', 'record', 'parts') and isinstance(d[0], str) \
-        and not re.match(r'^-?\d+$', d[0])
-
-
-class ValueJobs:
-    """deferred comparisons of two dumps through the core's to_list (modelrun op id)"""
-
-    def __init__(self):
-        self.jobs = []      # (jid, eager_dump_text, other_dump_text, callback)
-        self.n = 0
-
-    def same(self, e, v, cb):
-        """e, v parsed dumps; cb(equal: bool|None) is called later (None = could not be evaluated)"""
-        if e == v:
-            cb(True)
-            return
-        if isinstance(e, list) and isinstance(v, list) and e and v and e[0] == 'record' and v[0] == 'record':
-            if e[1] != v[1]:
-                cb(False)
-                return
-            e, v = e[2], v[2]
-        if is_layout(e) and is_layout(v):
-            self.n += 1
-            self.jobs.append(('j%d' % self.n, unparse(e), unparse(v), cb))
-        else:
-            cb(False)
-
-    def flush(self):
-        if not self.jobs:
-            return
-        lines = ['(%s id %s (impl ok %s))' % (j, e, v) for j, e, v, _ in self.jobs]
-        verd = C.run_model(lines)
-        for j, e, v, cb in self.jobs:
-            r = verd.get(j, 'bad missing')
-            k = r.split(' ', 1)[0]
-            if k == 'agree' or r.startswith('viol closure'):
-                cb(True)          # equal values; "closure" only says the dumped (materialised) tree is not canonical
-            elif k == 'viol':
-                cb(False)
-            else:
-                cb(None)
-        self.jobs = []
-
-
 def same_json(a, b):
     """two tojson answers (lists of character codes) as JSON documents (object key order is not significant)"""
     import json
@@ -670,7 +627,22 @@ def first_crashing_prefix(c, san):
             except subprocess.TimeoutExpired:
                 pass
             return k - 1, phase, ('hang' if hung else 'rc=%s' % rc) + '\n' + tail, ln
-    return None, '?', '', session_line(c)
+    # not reproducible on its own (undefined behaviour): ask the sanitizer build where it goes wrong first
+    phase, tail = '?', ''
+    sexe = os.path.join(C.SAN, DRV)
+    src = os.path.join(C.VERIF, 'impl', 'drv', 'virtdrv.cpp')
+    if os.path.exists(sexe) and os.path.getmtime(sexe) >= os.path.getmtime(src):
+        try:
+            ps = subprocess.run([sexe], input=session_line(c) + '\n', stdout=subprocess.PIPE, stderr=subprocess.PIPE,
+                                text=True, timeout=120, env=env)
+            if ps.returncode != 0 and 'loading shared libraries' not in ps.stderr:
+                smarks = re.findall(r'^@([EVPQ]) (-?\d+)$', ps.stderr, re.M)
+                if smarks:
+                    phase = smarks[-1][0]
+                tail = '\n'.join(l for l in ps.stderr.splitlines() if not l.startswith('@'))[:1500]
+        except subprocess.TimeoutExpired:
+            pass
+    return None, phase, 'not reproducible in isolation\n' + tail, session_line(c)
 
 
 def run(cases, tier, rng):
